@@ -556,19 +556,42 @@ def run_c18(ctx, ck):
 # ---------------------------------------------------------------- C15
 def run_c15(ctx, ck):
     import re
-    # 1. the transliteration must still quote the library source, line for line and in order
+    # 1. the transliteration must still quote the library source, function by function, line for line and in order
     src = [l.strip() for l in open("/repo/std/strings.tsh").read().splitlines()]
     src = [l for l in src if l and not l.startswith("//")]
     model_text = open("/verif/coq/Lib/StrLib.v").read()
-    pos, missing = 0, []
+    funcs, cur = {}, None
     for l in src:
-        i = model_text.find(l, pos)
-        if i < 0:
-            missing.append(l)
-        else:
+        m = re.match(r"func ([A-Za-z]+)\(", l)
+        if m:
+            cur = m.group(1)
+            funcs[cur] = []
+        if cur:
+            funcs[cur].append(l)
+    changed, missing = [], []
+    for name, lines in funcs.items():
+        pos = model_text.find(lines[0])
+        ok = pos >= 0
+        for l in lines:
+            i = model_text.find(l, pos) if ok else -1
+            if i < 0:
+                ok = False
+                missing.append(l)
+                break
             pos = i + len(l)
+        if not ok:
+            changed.append(name)
+    # functions that call a changed function are affected too
+    affected = set(changed)
+    grew = True
+    while grew:
+        grew = False
+        for name, lines in funcs.items():
+            if name not in affected and any(re.search(r"\b%s\(" % c, l) for c in affected for l in lines[1:]):
+                affected.add(name)
+                grew = True
     ctx.cov["library_source_lines"] = len(src)
-    ctx.cov["library_source_lines_quoted_in_model"] = len(src) - len(missing)
+    ctx.cov["library_functions_quoted_in_model"] = len(funcs) - len(changed)
     n = 2000 if ctx.tier == "quick" else 0
     s = ck.run_stream(ctx, "strlib", n)
 
@@ -590,8 +613,12 @@ def run_c15(ctx, ck):
                       "the C15 theorems are stated against this specification\n" % (len(bad), len(s["cases"]), describe(k, s), s["expect"].get(k), s["model"].get(("gospec", k[1]))),
                       found_input=False)
     if missing and not ctx.violations:
-        ctx.violation("std/strings.tsh changed: %d source lines are no longer quoted (in order) by the transliteration coq/Lib/StrLib.v, e.g. %r\n"
-                      "no behavioural difference was found on the generated argument tuples\n" % (len(missing), missing[0]), found_input=False)
+        # the source changed but the sampled tuples show no difference: enumerate the affected functions exhaustively
+        s2 = ck.run_stream(ctx, "strlib", 0, seed_off=1, extra_env={"STRLIB_FUNCS": ",".join(sorted(affected))})
+        compare(ctx, s2, "exhaustive argument space of the functions whose source changed (%s)" % ",".join(sorted(affected)), sig, describe, lambda k, s: True)
+    if missing and not ctx.violations:
+        ctx.violation("std/strings.tsh changed: the functions %s are no longer quoted line for line by the transliteration coq/Lib/StrLib.v, e.g. %r\n"
+                      "no behavioural difference was found, also not on the exhaustive argument space of these functions\n" % (",".join(changed), missing[0]), found_input=False)
     ctx.cov["distribution"] = s["meta"]
     for k in list(s["cases"])[:3]:
         ctx.samples.append({"call": describe(k, s), "observed": s["impl"].get(k), "go": s["expect"].get(k)})
